@@ -6,7 +6,7 @@
 
    Part 1: syntax.  Part 2: the checker (executable).  Part 3: the abstract heap
    semantics (specification; an inductive relation, nothing is proved here). *)
-From Coq Require Import List NArith Bool String.
+From Coq Require Import List NArith PArith Bool String FSets.FSetPositive.
 Import ListNotations.
 Open Scope N_scope.
 
@@ -20,21 +20,29 @@ Definition ret_var : var := 0.
 (* How a value is obtained.  Only object identity matters:
    EVar y      the object bound to y (alias)
    ELoad y f   some object held by the container y (element, dict value or key,
-               attribute) in field f; field 0 reads every field, a field f<>0 reads
-               what was stored under f or under 0 (unknown position)
+               attribute) in a field matching f (see [fmatch])
    EReach ys   some object reachable in zero or more steps from one of ys (result
                of an opaque call: library function, user callback, graph view)
-   EAlloc s shallow copy deep view
+   EAlloc s cf shallow copy deep view
                a NEW object allocated at site s; the references it holds (field 0) are among:
                the objects of [shallow] themselves ([a,b], (a,b), {k:v}), the
-               references held by the objects of [copy] (list(y), y.copy(),
-               np.array(y)), anything reachable from [deep]; its buffer is its own
+               references held by the objects of [copy] in fields matching cf (list(y),
+               y.copy(), np.array(y), y[i:j]), anything reachable from [deep]; its buffer is its own
                or the buffer of one of [view] (y.T, y[i:j], y.reshape, np.asarray). *)
 Inductive expr :=
 | EVar (y : var)
 | ELoad (y : var) (f : field)
 | EReach (ys : list var)
-| EAlloc (s : site) (shallow copy deep view : list var).
+| EAlloc (s : site) (cf : field) (shallow copy deep view : list var)
+| EChoice (a b : expr).     (* either *)
+
+(* field f of a load matches the field g a reference is stored under.
+   0 = everything; VALF = everything but dictionary keys (y[k]); otherwise the field
+   itself or the unknown position 0.  KEYF holds dictionary keys. *)
+Definition VALF : field := 61.
+Definition KEYF : field := 62.
+Definition fmatch (f g : field) : bool :=
+  (f =? 0) || (g =? f) || (g =? 0) || ((f =? VALF) && negb (g =? KEYF)).
 
 (* SWrite line x f ys: in-place modification of the object bound to x (and of the
    buffer it shares): x[..]=y, x.shape=.., x.append(y), x += y on a mutable, del x[..];
@@ -54,6 +62,8 @@ Inductive stmt :=
 | SLoop (b : stmt)
 | SCall (x : var) (f : fname) (args : list var).
 
+Definition seq (l : list stmt) : stmt := fold_right SSeq SSkip l.
+
 Record fundef := mkfun {
   fn_id : fname;
   fn_name : string;
@@ -71,24 +81,21 @@ Fixpoint find_fun (p : program) (f : fname) : option fundef :=
 (* ---------------------------------------------------------- abstract values *)
 (* AParam q: any object that existed before the call (named after the parameter q
    of the analysed entry point through which it was first reached);
-   ASite s: any object allocated at site s during the call. *)
-Inductive aobj := AParam (q : var) | ASite (s : site).
-
-Definition aobj_eqb (a b : aobj) : bool :=
-  match a, b with
-  | AParam x, AParam y => x =? y
-  | ASite x, ASite y => x =? y
-  | _, _ => false
-  end.
-
-Definition amem (a : aobj) (l : list aobj) : bool := existsb (aobj_eqb a) l.
-Definition asubset (l m : list aobj) : bool := forallb (fun a => amem a m) l.
-Fixpoint aunion (l m : list aobj) : list aobj :=
-  match l with
-  | [] => m
-  | a :: l' => if amem a m then aunion l' m else a :: aunion l' m
-  end.
-Definition aunions (ls : list (list aobj)) : list aobj := fold_right aunion [] ls.
+   ASite s: any object allocated at site s during the call.
+   Abstract objects are coded as positive numbers (q -> 2(q+1)+1, s -> 2(s+1)) so
+   that sets of them are the standard library's PositiveSet (radix trees). *)
+Definition aobj := positive.
+Definition AParam (q : var) : aobj := xI (N.succ_pos q).
+Definition ASite (s : site) : aobj := xO (N.succ_pos s).
+Definition aset_t := PositiveSet.t.
+Definition aempty : aset_t := PositiveSet.empty.
+Definition asingle (a : aobj) : aset_t := PositiveSet.singleton a.
+Definition amem (a : aobj) (l : aset_t) : bool := PositiveSet.mem a l.
+Definition asubset (l m : aset_t) : bool := PositiveSet.subset l m.
+Definition aunion (l m : aset_t) : aset_t := PositiveSet.union l m.
+Definition aunions (ls : list aset_t) : aset_t := fold_right aunion aempty ls.
+Definition aelems (l : aset_t) : list aobj := PositiveSet.elements l.
+Definition aisempty (l : aset_t) : bool := PositiveSet.is_empty l.
 
 Definition nmem (a : N) (l : list N) : bool := existsb (N.eqb a) l.
 Definition nsubset (l m : list N) : bool := forallb (fun a => nmem a m) l.
@@ -98,44 +105,68 @@ Fixpoint nunion (l m : list N) : list N :=
   | a :: l' => if nmem a m then nunion l' m else a :: nunion l' m
   end.
 
-(* abstract environment: variable -> set of abstract objects ([] = unbound) *)
-Definition aenv := list (var * list aobj).
-Fixpoint alook (E : aenv) (x : var) : list aobj :=
+(* abstract environment: variable -> set of abstract objects (empty = unbound) *)
+Definition aenv := list (var * aset_t).
+Fixpoint alook (E : aenv) (x : var) : aset_t :=
   match E with
-  | [] => []
+  | [] => aempty
   | (y, v) :: E' => if y =? x then v else alook E' x
   end.
-Fixpoint aset (E : aenv) (x : var) (v : list aobj) : aenv :=
+Fixpoint aset (E : aenv) (x : var) (v : aset_t) : aenv :=
   match E with
   | [] => [(x, v)]
   | (y, w) :: E' => if y =? x then (x, v) :: E' else (y, w) :: aset E' x v
   end.
-Definition alooks (E : aenv) (xs : list var) : list aobj := aunions (map (alook E) xs).
-Definition aenv_leq (E F : aenv) : bool :=
+Definition alooks (E : aenv) (xs : list var) : aset_t := aunions (map (alook E) xs).
+Definition aenv_leq_gen (E F : aenv) : bool :=
   forallb (fun yv => asubset (snd yv) (alook F (fst yv))) E.
-Fixpoint aenv_join (E F : aenv) : aenv :=
+Fixpoint aenv_join_gen (E F : aenv) : aenv :=
   match F with
   | [] => E
-  | (y, v) :: F' => aenv_join (aset E y (aunion v (alook E y))) F'
+  | (y, v) :: F' => aenv_join_gen (aset E y (aunion v (alook E y))) F'
+  end.
+(* the two environments of a branch or of a loop iteration descend from the same
+   environment, so their keys are usually in the same order: linear-time versions
+   that fall back to the general ones when the keys do not line up *)
+Fixpoint aenv_leq (E F : aenv) : bool :=
+  match E, F with
+  | [], _ => true
+  | (x, v) :: E', (y, w) :: F' =>
+    if x =? y then asubset v w && aenv_leq E' F' else aenv_leq_gen E F
+  | _, [] => aenv_leq_gen E F
+  end.
+Fixpoint aenv_join (E F : aenv) : aenv :=
+  match E, F with
+  | [], _ => F
+  | _, [] => E
+  | (x, v) :: E', (y, w) :: F' =>
+    if x =? y then (x, aunion v w) :: aenv_join E' F' else aenv_join_gen E F
   end.
 
 (* abstract heap, flow-insensitive: for every allocation site the abstract objects
-   its instances may hold references to, and the parameters whose pre-existing
-   buffer its instances may share (views) *)
+   its instances may hold references to (by field), and the parameters whose
+   pre-existing buffer its instances may share (views) *)
+Definition fmap := list (field * aset_t).
+Fixpoint fm_match (m : fmap) (f : field) : aset_t :=
+  match m with
+  | [] => aempty
+  | (g, v) :: m' => if fmatch f g then aunion v (fm_match m' f) else fm_match m' f
+  end.
+Fixpoint fm_look (m : fmap) (f : field) : aset_t :=
+  match m with
+  | [] => aempty
+  | (g, v) :: m' => if g =? f then v else fm_look m' f
+  end.
+Fixpoint hp_site (h : list (site * fmap)) (s : site) : fmap :=
+  match h with
+  | [] => []
+  | (t, m) :: h' => if t =? s then m else hp_site h' s
+  end.
+Definition hp_match (h : list (site * fmap)) (s : site) (f : field) : aset_t := fm_match (hp_site h s) f.
+Definition hp_look (h : list (site * fmap)) (s : site) (f : field) : aset_t := fm_look (hp_site h s) f.
 Record aheap := mkheap {
-  hp : list (site * field * list aobj);
+  hp : list (site * fmap);
   bt : list (site * list var) }.
-Fixpoint hp_look (h : list (site * field * list aobj)) (s : site) (f : field) : list aobj :=
-  match h with
-  | [] => []
-  | (t, g, v) :: h' => if (t =? s) && (g =? f) then v else hp_look h' s f
-  end.
-(* every field of s *)
-Fixpoint hp_all (h : list (site * field * list aobj)) (s : site) : list aobj :=
-  match h with
-  | [] => []
-  | (t, g, v) :: h' => if t =? s then aunion v (hp_all h' s) else hp_all h' s
-  end.
 Fixpoint bt_look (h : list (site * list var)) (s : site) : list var :=
   match h with
   | [] => []
@@ -143,34 +174,47 @@ Fixpoint bt_look (h : list (site * list var)) (s : site) : list var :=
   end.
 (* what an abstract object may hold: pre-existing objects only hold pre-existing
    objects as long as nobody writes them *)
-Definition hpts (H : aheap) (f : field) (a : aobj) : list aobj :=
+Definition hpts (H : aheap) (f : field) (a : aobj) : aset_t :=
   match a with
-  | AParam q => [AParam q]
-  | ASite s => if f =? 0 then hp_all (hp H) s
-               else aunion (hp_look (hp H) s f) (hp_look (hp H) s 0)
+  | xI _ => asingle a
+  | xO p => hp_match (hp H) (Pos.pred_N p) f
+  | xH => aempty
   end.
 (* parameters whose pre-existing storage a write through [a] would modify *)
 Definition taint1 (H : aheap) (a : aobj) : list var :=
   match a with
-  | AParam q => [q]
-  | ASite s => bt_look (bt H) s
+  | xI p => [Pos.pred_N p]
+  | xO p => bt_look (bt H) (Pos.pred_N p)
+  | xH => []
   end.
-Definition taint (H : aheap) (l : list aobj) : list var :=
-  fold_right (fun a acc => nunion (taint1 H a) acc) [] l.
-Definition aload (H : aheap) (f : field) (l : list aobj) : list aobj := aunions (map (hpts H f) l).
+Definition taint (H : aheap) (l : aset_t) : list var :=
+  fold_right (fun a acc => nunion (taint1 H a) acc) [] (aelems l).
+Definition aload (H : aheap) (f : field) (l : aset_t) : aset_t :=
+  fold_right (fun a acc => aunion (hpts H f a) acc) aempty (aelems l).
 
-Fixpoint areach_iter (H : aheap) (k : nat) (l : list aobj) : list aobj :=
+(* worklist closure: every abstract object is expanded once *)
+Fixpoint areach_wl (H : aheap) (k : nat) (todo : list aobj) (acc : aset_t) : aset_t :=
   match k with
-  | O => l
-  | S k' => let l' := aunion (aload H 0 l) l in
-            if asubset l' l then l else areach_iter H k' l'
+  | O => acc
+  | S k' =>
+    match todo with
+    | [] => acc
+    | a :: todo' =>
+      if amem a acc then areach_wl H k' todo' acc
+      else areach_wl H k' (aelems (hpts H 0 a) ++ todo') (PositiveSet.add a acc)
+    end
   end.
-Definition aclosed (H : aheap) (r : list aobj) : bool :=
-  forallb (fun a => asubset (hpts H 0 a) r) r.
+Definition fm_size (m : fmap) : nat := fold_right (fun gv n => S (PositiveSet.cardinal (snd gv) + n)) O m.
+Definition hp_size (h : list (site * fmap)) : nat := fold_right (fun sm n => S (fm_size (snd sm) + n)) O h.
+Definition areach_any (H : aheap) (l : aset_t) : aset_t :=
+  let n := PositiveSet.cardinal l in
+  areach_wl H (S (hp_size (hp H) + hp_size (hp H) + n + n)) (aelems l) aempty.
+Definition aclosed (H : aheap) (r : aset_t) : bool :=
+  forallb (fun a => asubset (hpts H 0 a) r) (aelems r).
 (* reflexive-transitive closure; the result is CHECKED to be closed, so that the
    soundness proof does not depend on the iteration count *)
-Definition areach (H : aheap) (l : list aobj) : option (list aobj) :=
-  let r := areach_iter H (S (List.length (hp H))) l in
+Definition areach (H : aheap) (l : aset_t) : option aset_t :=
+  let r := areach_any H l in
   if aclosed H r && asubset l r then Some r else None.
 
 (* -------------------------------------------------------------- the checker *)
@@ -181,25 +225,31 @@ Definition areach (H : aheap) (l : list aobj) : option (list aobj) :=
    out of fuel. *)
 Definition viol := list (N * var).
 
-Definition eval_expr (H : aheap) (E : aenv) (e : expr) : option (list aobj) :=
+Fixpoint eval_expr (H : aheap) (E : aenv) (e : expr) : option aset_t :=
   match e with
+  | EChoice a b =>
+    match eval_expr H E a, eval_expr H E b with
+    | Some u, Some v => Some (aunion u v)
+    | _, _ => None
+    end
   | EVar y => Some (alook E y)
   | ELoad y f => Some (aload H f (alook E y))
   | EReach ys => areach H (alooks E ys)
-  | EAlloc s sh cp dp vw =>
+  | EAlloc s cf sh cp dp vw =>
     match areach H (alooks E dp) with
     | None => None
     | Some rd =>
-      let need := aunion (alooks E sh) (aunion (aload H 0 (alooks E cp)) rd) in
+      let need := aunion (alooks E sh) (aunion (aload H cf (alooks E cp)) rd) in
       if asubset need (hp_look (hp H) s 0) && nsubset (taint H (alooks E vw)) (bt_look (bt H) s)
-      then Some [ASite s] else None
+      then Some (asingle (ASite s)) else None
     end
   end.
 
-Definition store_ok (H : aheap) (f : field) (targets vals : list aobj) : bool :=
-  forallb (fun a => match a with AParam _ => true | ASite s => asubset vals (hp_look (hp H) s f) end) targets.
+Definition store_ok (H : aheap) (f : field) (targets vals : aset_t) : bool :=
+  forallb (fun a => match a with xO p => asubset vals (hp_look (hp H) (Pos.pred_N p) f) | _ => true end)
+          (aelems targets).
 
-Fixpoint bind_params (ps : list (var * string)) (vals : list (list aobj)) : option aenv :=
+Fixpoint bind_params (ps : list (var * string)) (vals : list aset_t) : option aenv :=
   match ps, vals with
   | [], [] => Some []
   | (x, _) :: ps', v :: vals' =>
@@ -207,11 +257,11 @@ Fixpoint bind_params (ps : list (var * string)) (vals : list (list aobj)) : opti
   | _, _ => None
   end.
 
-Fixpoint loop_inv (f : aenv -> option (aenv * viol)) (k : nat) (E : aenv) : option aenv :=
+Fixpoint loop_inv (f : aenv -> option (aenv * viol)) (k : nat) (E : aenv) : option (aenv * viol) :=
   match f E with
   | None => None
-  | Some (E1, _) =>
-    if aenv_leq E1 E then Some E else
+  | Some (E1, v) =>
+    if aenv_leq E1 E then Some (E, v) else
     match k with O => None | S k' => loop_inv f k' (aenv_join E E1) end
   end.
 
@@ -246,11 +296,7 @@ Fixpoint chk (p : program) (H : aheap) (depth : nat) : stmt -> aenv -> option (a
         end
       | SLoop b =>
         match loop_inv (go b) LOOPFUEL E with
-        | Some Ei =>
-          match go b Ei with
-          | Some (E1, v) => if aenv_leq E1 Ei && aenv_leq E Ei then Some (Ei, v) else None
-          | None => None
-          end
+        | Some (Ei, v) => if aenv_leq E Ei then Some (Ei, v) else None
         | None => None
         end
       | SCall x f args =>
@@ -273,31 +319,41 @@ Fixpoint chk (p : program) (H : aheap) (depth : nat) : stmt -> aenv -> option (a
 (* [infer] is the same traversal, but it ADDS the missing facts to H instead of
    failing.  Nothing is proved about it: its result is only a candidate that [chk]
    then verifies. *)
-Fixpoint hp_add (h : list (site * field * list aobj)) (s : site) (f : field) (v : list aobj) : list (site * field * list aobj) :=
+Fixpoint fm_add (m : fmap) (f : field) (v : aset_t) : fmap :=
+  match m with
+  | [] => [(f, v)]
+  | (g, w) :: m' => if g =? f then (g, aunion v w) :: m' else (g, w) :: fm_add m' f v
+  end.
+Fixpoint hp_add (h : list (site * fmap)) (s : site) (f : field) (v : aset_t) : list (site * fmap) :=
   match h with
-  | [] => [(s, f, v)]
-  | (t, g, w) :: h' => if (t =? s) && (g =? f) then (t, g, aunion v w) :: h' else (t, g, w) :: hp_add h' s f v
+  | [] => [(s, [(f, v)])]
+  | (t, m) :: h' => if t =? s then (t, fm_add m f v) :: h' else (t, m) :: hp_add h' s f v
   end.
 Fixpoint bt_add (h : list (site * list var)) (s : site) (v : list var) : list (site * list var) :=
   match h with
   | [] => [(s, v)]
   | (t, w) :: h' => if t =? s then (t, nunion v w) :: h' else (t, w) :: bt_add h' s v
   end.
-Definition areach_any (H : aheap) (l : list aobj) : list aobj :=
-  areach_iter H (S (List.length (hp H))) l.
 
-Definition infer_expr (H : aheap) (E : aenv) (e : expr) : aheap * list aobj :=
+Fixpoint infer_expr (H : aheap) (E : aenv) (e : expr) : aheap * aset_t :=
   match e with
+  | EChoice a b =>
+    let '(H1, u) := infer_expr H E a in
+    let '(H2, v) := infer_expr H1 E b in (H2, aunion u v)
   | EVar y => (H, alook E y)
   | ELoad y f => (H, aload H f (alook E y))
   | EReach ys => (H, areach_any H (alooks E ys))
-  | EAlloc s sh cp dp vw =>
-    let need := aunion (alooks E sh) (aunion (aload H 0 (alooks E cp)) (areach_any H (alooks E dp))) in
-    (mkheap (hp_add (hp H) s 0 need) (bt_add (bt H) s (taint H (alooks E vw))), [ASite s])
+  | EAlloc s cf sh cp dp vw =>
+    let need := aunion (alooks E sh) (aunion (aload H cf (alooks E cp)) (areach_any H (alooks E dp))) in
+    let tv := taint H (alooks E vw) in
+    (mkheap (if aisempty need then hp H else hp_add (hp H) s 0 need)
+            (match tv with [] => bt H | _ => bt_add (bt H) s tv end), asingle (ASite s))
   end.
 
-Definition infer_store (H : aheap) (f : field) (targets vals : list aobj) : aheap :=
-  fold_left (fun H a => match a with AParam _ => H | ASite s => mkheap (hp_add (hp H) s f vals) (bt H) end) targets H.
+Definition infer_store (H : aheap) (f : field) (targets vals : aset_t) : aheap :=
+  if aisempty vals then H else
+  fold_left (fun H a => match a with xO p => mkheap (hp_add (hp H) (Pos.pred_N p) f vals) (bt H) | _ => H end)
+            (aelems targets) H.
 
 Fixpoint infer_loop (f : aheap -> aenv -> aheap * aenv) (k : nat) (H : aheap) (E : aenv) : aheap * aenv :=
   match k with
@@ -320,9 +376,7 @@ Fixpoint infer (p : program) (depth : nat) : stmt -> aheap -> aenv -> aheap * ae
       | SIf a b =>
         let '(H1, E1) := go a H E in
         let '(H2, E2) := go b H1 E in (H2, aenv_join E1 E2)
-      | SLoop b =>
-        let '(H1, Ei) := infer_loop (go b) LOOPFUEL H E in
-        let '(H2, _) := go b H1 Ei in (H2, Ei)
+      | SLoop b => infer_loop (go b) LOOPFUEL H E
       | SCall x f args =>
         match find_fun p f with
         | Some fd =>
@@ -337,9 +391,8 @@ Fixpoint infer (p : program) (depth : nat) : stmt -> aheap -> aenv -> aheap * ae
   end.
 
 Definition heap_size (H : aheap) : nat :=
-  (fold_right (fun sv n => List.length (snd sv) + n) 0 (hp H)
-   + fold_right (fun sv n => List.length (snd sv) + n) 0 (bt H)
-   + List.length (hp H) + List.length (bt H))%nat.
+  (hp_size (hp H)
+   + fold_right (fun sv n => List.length (snd sv) + n) 0 (bt H) + List.length (bt H))%nat.
 
 Fixpoint infer_fix (p : program) (depth : nat) (body : stmt) (E0 : aenv) (k : nat) (H : aheap) : aheap :=
   match k with
@@ -353,7 +406,7 @@ Definition DEPTH : nat := 8%nat.
 Definition HEAPFUEL : nat := 40%nat.
 
 Definition entry_env (fd : fundef) : aenv :=
-  fold_right (fun xn E => aset E (fst xn) [AParam (fst xn)]) [] (fn_params fd).
+  fold_right (fun xn E => aset E (fst xn) (asingle (AParam (fst xn)))) [] (fn_params fd).
 
 Definition analyse (p : program) (fd : fundef) : option viol :=
   let E0 := entry_env fd in
@@ -383,22 +436,23 @@ Fixpoint dedup (l : list N) : list N :=
   | [] => []
   | a :: l' => if nmem a l' then dedup l' else a :: dedup l'
   end.
+Definition report1 (fd : fundef) (r : option viol) : string * bool * option (list string) * list (N * string) :=
+  match r with
+  | Some v => (fn_name fd, fn_entry fd, Some (map (pname (fn_params fd)) (dedup (map snd v))),
+               map (fun lq => (fst lq, pname (fn_params fd) (snd lq))) v)
+  | None => (fn_name fd, fn_entry fd, None, [])
+  end.
+(* one line per function: name, public?, parameters that may be modified, (line, parameter) of the writes *)
+Definition report (p : program) (fds : list fundef) := map (fun fd => report1 fd (analyse p fd)) fds.
 Definition mutated_params (p : program) (fd : fundef) : option (list string) :=
   match analyse p fd with
   | Some v => Some (map (pname (fn_params fd)) (dedup (map snd v)))
   | None => None
   end.
-Definition write_lines (p : program) (fd : fundef) : list (N * string) :=
-  match analyse p fd with
-  | Some v => map (fun lq => (fst lq, pname (fn_params fd) (snd lq))) v
-  | None => []
-  end.
 
 Definition entry_points (p : program) : list fundef := filter fn_entry p.
 Definition unsafe_entry_points (p : program) : list (string * option (list string)) :=
   map (fun fd => (fn_name fd, mutated_params p fd)) (filter (fun fd => negb (safe p fd)) (entry_points p)).
-Definition unsafe_functions (p : program) : list (string * option (list string)) :=
-  map (fun fd => (fn_name fd, mutated_params p fd)) (filter (fun fd => negb (safe p fd)) p).
 
 (* --------------------------------------- abstract heap semantics (specification) *)
 (* Objects have an identity (a location), hold references to other objects
@@ -428,17 +482,19 @@ Definition alloc_rel (h h' : heap) (l : loc) (s : site) : Prop :=
 
 Inductive eval (h : heap) (e : env) : expr -> heap -> loc -> Prop :=
 | ev_var y l : e y = Some l -> eval h e (EVar y) h l
-| ev_load y f l0 g l : e y = Some l0 -> kids h l0 g l -> (f = 0 \/ g = f \/ g = 0) ->
+| ev_load y f l0 g l : e y = Some l0 -> kids h l0 g l -> fmatch f g = true ->
     eval h e (ELoad y f) h l
 | ev_reach ys y l0 l : In y ys -> e y = Some l0 -> reach h l0 l -> eval h e (EReach ys) h l
-| ev_alloc s sh cp dp vw h' l :
+| ev_alloc s cf sh cp dp vw h' l :
     alloc_rel h h' l s ->
     (base h' l = l \/ exists z lz, In z vw /\ e z = Some lz /\ base h' l = base h lz) ->
     (forall g k, kids h' l g k -> g = 0 /\
       ((exists z, In z sh /\ e z = Some k) \/
-       (exists z lz g', In z cp /\ e z = Some lz /\ kids h lz g' k) \/
+       (exists z lz g', In z cp /\ e z = Some lz /\ kids h lz g' k /\ fmatch cf g' = true) \/
        (exists z lz, In z dp /\ e z = Some lz /\ reach h lz k))) ->
-    eval h e (EAlloc s sh cp dp vw) h' l.
+    eval h e (EAlloc s cf sh cp dp vw) h' l
+| ev_choice_l a b h' l : eval h e a h' l -> eval h e (EChoice a b) h' l
+| ev_choice_r a b h' l : eval h e b h' l -> eval h e (EChoice a b) h' l.
 
 (* in-place modification of l: afterwards l may hold its old references and
    references to the objects of ys; nothing else changes *)
